@@ -751,6 +751,8 @@ def recv_program():
         {"name": "Sub", "base": "K", "init": False, "methods": [fn("other", ["self", "p"], body("y"))]},
         {"name": "E", "eq": "eq", "methods": [fn("meth", ["this", "p"], body("x"))]},
         {"name": "N", "eq": "nohash", "methods": [fn("meth", ["self", "p"], body("x"))]},
+        # instances cannot be compared (array-like __eq__)
+        {"name": "R", "eq": "raises", "methods": [fn("meth", ["self", "p"], body("x"))]},
         # instances are empty containers: false in a boolean context
         {"name": "Z", "falsy": True, "methods": [fn("meth", ["me", "p"], body("x"))]},
         {
@@ -776,6 +778,8 @@ def recv_program():
         {"name": "e3", "cls": "E", "key": 8},
         {"name": "n1", "cls": "N", "key": 7},
         {"name": "n2", "cls": "N", "key": 7},
+        {"name": "r1", "cls": "R", "key": 1},
+        {"name": "r2", "cls": "R", "key": 2},
         {"name": "z1", "cls": "Z", "key": 1},
         {"name": "z2", "cls": "Z", "key": 2},
         {"name": "w1", "cls": "W", "key": 1},
